@@ -515,6 +515,17 @@ func (m *MonC13) AfterTx(o *TxOutcome) {
 			continue // value-changing event between accrual and claim: C12's domain
 		}
 		rep.Class(fmt.Sprintf("C13.claim/%s/receipts%d/denoms%d", kind, min(c.N, 3), min(len(denoms), 3)))
+		if d0, ok := o.Pre.Dels[c.Pos]; ok && c.N > 0 {
+			nseg := 0
+			for _, ws := range o.Pre.Weights {
+				if ws.Denom == c.Pos.Denom && ws.Val == c.Pos.Val && ws.Height >= d0.LastRewardClaimHeight {
+					nseg++
+				}
+			}
+			if nseg >= 2 {
+				rep.Class("C13.claim-across-two-snapshots") // two or more weight-change snapshots since the last claim
+			}
+		}
 		for _, d := range sortedKeys(denoms) {
 			E := c.E[d]
 			if E == nil {
